@@ -297,7 +297,7 @@ def parseTomlEnc (s : String) : Option TomlCfg :=
   if s == "-" then none else
   let kv := (s.splitOn ";").filterMap fun f => match f.splitOn "=" with | [k, v] => some (k, v) | _ => none
   let lst (k : String) : List String := match lookup kv k with
-    | some v => if v.isEmpty then [] else (v.splitOn ",").map (fun h => bytesToString (unhex h.toList))
+    | some v => if v.isEmpty then [] else (v.splitOn ",").map (fun h => bytesToString (unhex (h.toList.drop 1)))   -- names are sent as `x<hex>` so that an empty name differs from an empty list
     | none => []
   some { path := (lookup kv "path").bind optField, optimizations := lst "opt", vulnerabilities := lst "vuln", qa := lst "qa" }
 
@@ -321,8 +321,10 @@ def handleResolve (cliPath tomlEnc contractsExists implExit implReport : String)
       let dirKey := ((o.path.splitOn "/").getLast?.getD "") ++ "_"
       let filesOk := rb.out.all (fun t => t.2.1.startsWith dirKey) && !rb.out.isEmpty
       let ok := seen == want && (filesOk || want.isEmpty)
-      { kind := "RESOLVE", agree := if ok then "A" else "D", oracle := "na",
-        detail := if ok then "" else s!"model: dir {o.path} patterns {want}; impl sections {seen}; files from the model's dir: {filesOk}" }
+      -- the property in its own words: the sections of the report are exactly those of the listed (or default)
+      -- patterns, and every entry comes from the selected directory (the fixture has findings for every pattern)
+      { kind := "RESOLVE", agree := if ok then "A" else "D", oracle := if ok then "ok" else "VIOL",
+        detail := if ok then "" else s!"configured: dir {o.path} patterns {want}; the report has sections {seen}; all entries from the configured dir: {filesOk}" }
 
 def contextDependent : List String :=
   ["constant_variable_optimization", "sstore_optimization", "immutable_variables_optimization"]
